@@ -69,12 +69,22 @@ func (e *Exec) evalClause(c *Clause, st, old *State, extra map[string]specVar) *
 	if _, ok := extra["$current"]; ok {
 		ctx.current = true
 	}
+	oldPC := old.pc
 	v, _ := ctx.eval(c.Expr)
 	n, ok := v.(*Node)
 	if !ok {
 		panic(fmt.Sprintf("clause %q does not evaluate to a formula", c.Text))
 	}
+	carryOldFacts(st, old, oldPC)
 	return n
+}
+
+// carryOldFacts: reading old-state values adds their type-range facts (len >= 0, integer ranges) to
+// the old state's path condition; the current state descends from the old one, so they hold there too.
+func carryOldFacts(st, old *State, oldPC *Node) {
+	if old != nil && old != st && old.pc != oldPC {
+		st.assume(old.pc)
+	}
 }
 
 func (e *Exec) evalClauseCur(c *Clause, st, old *State, extra map[string]specVar) *Node {
@@ -849,6 +859,20 @@ func (c *SpecCtx) callExpr(x *ast.CallExpr, sn *SpecNode) (Value, types.Type) {
 			default:
 				return strPredicate("str.suffixof", "uf_strSuffix", b, a), types.Typ[types.Bool]
 			}
+		case "inmap":
+			mv, mt := c.expr(x.Args[0], sn)
+			kv, kt := c.expr(x.Args[1], sn)
+			mtt, ok := mt.Underlying().(*types.Map)
+			if !ok {
+				c.fail("inmap: not a map")
+			}
+			var k *Node
+			if sv, isStruct := kv.(*StructV); isStruct {
+				k = e.packKey(sv, mtt.Key())
+			} else {
+				k = c.coerce(kv, kt, mtt.Key())
+			}
+			return e.mapHas(c.st, mtt, mv.(*Node), k), types.Typ[types.Bool]
 		case "inscope":
 			// inscope(x): the local variable x exists at this program point
 			id2, ok := x.Args[0].(*ast.Ident)
